@@ -5,7 +5,9 @@
 (*   reps    the replicas of the key, in the order Metadata.get_replicas     *)
 (*           returns them (the replica list of a Placement.tla ring for the  *)
 (*           key's position; checks/c22.py obtains it from a real Metadata   *)
-(*           built from such a ring)                                         *)
+(*           built from such a ring); when the keyspace's replication is     *)
+(*           altered between two plans (Placement.tla AlterReplication) it   *)
+(*           is the list under the CURRENT settings                          *)
 (*   child   the wrapped policy's query plan (distinct hosts, none IGNORED)   *)
 (*   up      Host.is_up of every host: "T" True, "F" False, "N" None          *)
 (*   dist    the wrapped policy's distance() of every host                   *)
